@@ -400,6 +400,40 @@ fn c05_clock_step_conserves_time() {
     kani::cover!(df == 1 && latch & 0x20 != 0 && m == ZXMachine::Sinclair128K, "frame end on a 128K with paging locked");
 }
 
+// @harness
+// @prop C05
+// @tier quick
+// @timeout 600
+// @fn ZXController::halt; ZXController::reti; ZXController::pc_callback; ZXController::read_interrupt; ZXController::int_active; ZXController::nmi_active; ZXController::take_events; ZXController::reset_frame_counter
+// @sym machine, frame T-state (any, including the INT window and the 1-3 T carried over a frame end), frames counted, every argument of the callbacks
+// @assert emulated time moves only through the bus wait primitives: the notifications the CPU sends while it accepts an interrupt or runs (HALT line changes in both directions, RETI, the PC callback, the interrupt-vector read, sampling INT/NMI) and the host-side accessors leave the frame clock and the frame count exactly as they were - no T-state is dropped or invented at the interrupt-acceptance step
+// @bound one call of each callback from an arbitrary in-frame time
+// @stub ZXScreen::process_clocks -> no-op
+// @replay solver-only
+#[kani::proof]
+#[kani::stub(crate::zx::video::screen::ZXScreen::process_clocks, noop_screen_clocks)]
+fn c05_only_bus_waits_move_the_clock() {
+    let m = crate::emulator::verif_hooks::any_machine();
+    let f = spec_frame_len(m);
+    let mut c = mk_controller(m, FbCtx { wx: 0, wy: 0 }, false, false);
+    let t: usize = kani::any();
+    let frames0: usize = kani::any();
+    kani::assume(t < f && frames0 < 1000);
+    c.frame_clocks = t;
+    c.passed_frames = frames0;
+    c.halt(kani::any());
+    c.halt(kani::any());
+    c.reti();
+    let _ = c.read_interrupt();
+    let _ = c.int_active();
+    let _ = c.nmi_active();
+    c.pc_callback(kani::any());
+    let _ = c.take_events();
+    kani::assert(c.frame_clocks == t && c.passed_frames == frames0, "c05.callbacks.cpu_notifications_do_not_move_the_clock");
+    kani::cover!(t == 3, "HALT released 3 T-states into the frame (the carried overrun)");
+    kani::cover!(t == 40000, "mid frame");
+}
+
 // =============================================================================================
 // C06 — memory map and 128K paging
 // =============================================================================================
